@@ -173,6 +173,9 @@ def level2_configs(tier):
         for rev in (False, True):
             cfgs.append(dict(KR=3, KQ=3, NS=2, rev=rev, shapes=SHAPES_QUICK, sj="0"))
         cfgs.append(dict(KR=3, KQ=2, NS=3, rev=False, shapes=["P", "PP"], sj="0"))
+        # two 4-pair segments that may overlap by two labels and still be chain-admissible (merge index strictly inside the overlap)
+        cfgs.append(dict(KR=6, KQ=6, NS=2, rev=False, shapes=["PPPP"], sj="0"))
+        cfgs.append(dict(KR=6, KQ=6, NS=2, rev=True, shapes=["PPPP"], sj="0", dp="1/2"))
     else:
         for rev in (False, True):
             cfgs.append(dict(KR=4, KQ=4, NS=2, rev=rev, shapes=SHAPES_THOROUGH, sj="0"))
@@ -189,7 +192,8 @@ def level2_unit(prop):
                    "src.alignment.segment_chainer:SequentialityScorer.getScore", "src.alignment.segments:AlignmentSegment",
                    "src.alignment.segments:_SegmentPairWithConflict", "src.alignment.alignment_results:AlignmentResultRow.create",
                    "src.alignment.alignment_position_scorer:AlignmentPositionScorer", "src.alignment.alignment_position:AlignedPair"],
-        bounds="2 segments over 3 x 3 labels and 3 segments over 4 x 3 labels (quick), 2-3 segments over 4 x 4 labels (thorough); shapes over "
+        bounds="2 segments over 3 x 3 labels, 3 segments over 3 x 2 labels, two 4-pair segments over 6 x 6 labels (quick), 2-3 segments over 4 x 4 labels "
+               "and 2 segments over 5 x 5 (thorough); shapes over "
                "{P pair, R unpaired reference label, Q unpaired query label} of length <= 3 (quick) / 4 (thorough), any placement, both strands; "
                "coordinates, seeds and scoring parameters symbolic; join multiplier 0",
         nontrivial_rule="the record has at least one pair",
